@@ -299,6 +299,36 @@ func checkC02(c *ctx) {
 			return
 		}
 	}
+	// the two per-document lengths (meta, data) cross the 2-byte / 3-byte varint boundary 16384:
+	// documents whose stored value has 16384-12 .. 16384+3 incompressible bytes, and documents with
+	// that many array positions
+	for _, kind := range []string{"bytes", "positions"} {
+		var b zh.Batch
+		for j := 0; j < 16; j++ {
+			n := 16384 - 12 + j
+			f := zh.Field{Name: "body", Stored: true, Typ: 't', Len: 1}
+			if kind == "bytes" {
+				f.Val = c.R.Bytes(n)
+			} else {
+				f.Val = []byte("v")
+				for q := 0; q < n; q++ {
+					f.AP = append(f.AP, uint64(q%100))
+				}
+			}
+			b = append(b, zh.Doc{Fields: []zh.Field{zh.IDField(fmt.Sprintf("x%02d", j)), f}})
+		}
+		sb, obs, spec, err := buildObs(c, b, 1026)
+		c.Case("length-boundary-"+kind, true)
+		c.Count("length_boundary_batches")
+		if err != nil || len(partsDiffer(obs, spec, parts)) > 0 {
+			c.Violation(fmt.Sprintf("C02 batch of 16 documents whose stored value has 16372..16387 %s (the per-document meta / data length crosses the varint boundary 16384): built segment differs from the specification (err %v)\n%s", kind, err, clip(describeDiff(obs, spec, parts))), false)
+			return
+		}
+		if bad := storedAPI(c, sb, b, spec); bad != "" {
+			c.Violation("C02 length-boundary batch ("+kind+"): "+bad, false)
+			return
+		}
+	}
 }
 
 // storedAPI exercises DocID, DocNumbers, early-stopping visitors and out-of-range documents.
@@ -446,6 +476,7 @@ func checkC03(c *ctx) {
 		if o.DVMask == 0 {
 			o.DVMask = 1 + c.R.Intn(31)
 		}
+		o.Geo = c.R.Chance(4)
 		b := zh.GenBatch(c.R, o)
 		if c.R.Chance(3) {
 			if sb := sparsify(c, cloneBatch(b)); sb.InDomain() {
